@@ -1042,3 +1042,12 @@ N('ISD-direction-aware-label-arm', ['C04'], 'index.py', 'LocMap.map_slice_args',
 N('QK-ordered-keys-told-apart', ['C19'], 'quilt.py', 'Quilt._extract',
   '        sel = np.full(len(self._axis_map), False)\n        sel[sel_key] = True\n',
   '        if isinstance(sel_key, list) or sel_key.__class__ is np.ndarray:\n            raise NotImplementedError(\'ordered keys are handled by the caller\')\n        sel = np.full(len(self._axis_map), False)\n        sel[sel_key] = True\n')
+
+# ---------------------------------------------------------------------------------- slice bounds carry the offset (C05 / C04)
+B('SBO-offset-only-same-unit', ['C05', 'C04'], 'index.py', 'LocMap.map_slice_args',
+  '                if offset_apply and field != SLICE_STEP_ATTR:\n                    pos += offset #type: ignore\n\n                yield pos',
+  '                if offset_apply and field != SLICE_STEP_ATTR and attr.dtype == labels.dtype:\n                    pos += offset #type: ignore\n\n                yield pos', 'I.slice-bounds-offset', 'map_slice_args')
+B('SBO-label-arm-no-offset', ['C05', 'C04'], 'index.py', 'LocMap.map_slice_args',
+  '                    if offset_apply:\n                        pos += offset #type: ignore\n                else: # step', '                else: # step', 'I.slice-bounds-offset', 'map_slice_args')
+N('SBO-offset-binop', ['C05', 'C04'], 'index.py', 'LocMap.map_slice_args',
+  '                    if offset_apply:\n                        pos += offset #type: ignore\n                else: # step', '                    if offset_apply:\n                        pos = pos + offset\n                else: # step')
